@@ -1,4 +1,6 @@
 import PcbV.Model.SaveLoad
+import PcbV.Gen.Translated
+import PcbV.Lemmas.PyIntLemmas
 /-
   C15 — Saved programs load back identically in every file format.
 
@@ -453,5 +455,69 @@ example : bodyOk false false 0 [0x89, 0x00, 0x20] = false := by decide
 example : loadFile tableKeys 4717 false
     (match saveFile tableKeys ⟨sampleProgram, 24, false⟩ Fmt.P with | .ok f => f | .error _ => [])
     = .ok ⟨sampleProgram, 24, false⟩ := by decide
+
+/-! ### tie to the source: the mechanically translated loop bodies of protect.py
+
+`PcbV.Gen.Translated.protStep / unprotStep / protNextIndex / unprotNextIndex` are regenerated on every
+run from the *current Python AST* of the loop bodies of `protect` / `unprotect` (gen/py2lean.py; Python
+ints = `Int`, `%` = `Int.fmod`, `^` = `PyInt.xor` on two's-complement ints, the key tuples as literal
+lists).  The theorems below say that they are the hand-written `protByte` / `unprotByte` / `nextIndex`
+at the generated tables, on unbounded Python ints (the intermediate `c` of the code is negative for
+small bytes and exceeds 255 after the final addition), so an edit of the loop bodies breaks a proof
+obligation.  Proved algebraically (`PcbV.PyIntLemmas`: the low byte of `x ^ k` for a byte `k`), not by
+enumeration.  The translated definitions are compared with the real functions by `vlib/translated.py`. -/
+
+theorem translated_protect_supported :
+    Gen.Translated.protStep_supported = true ∧ Gen.Translated.unprotStep_supported = true ∧
+    Gen.Translated.protNextIndex_supported = true ∧ Gen.Translated.unprotNextIndex_supported = true := by
+  decide
+
+/-- one coded byte: translated `protect` loop body = `protByte` (every index, every `ord` value) -/
+theorem translated_protStep_eq (i b : Nat) :
+    Gen.Translated.protStep (b : Int) (i : Int) = ((protByte tableKeys i b : Nat) : Int) := by
+  have h13 : i % 13 < 13 := Nat.mod_lt _ (by decide)
+  have h11 : i % 11 < 11 := Nat.mod_lt _ (by decide)
+  have e13 : Int.fmod (i : Int) 13 = ((i % 13 : Nat) : Int) := PyIntLemmas.fmod_natCast i 13
+  have e11 : Int.fmod (i : Int) 11 = ((i % 11 : Nat) : Int) := PyIntLemmas.fmod_natCast i 11
+  have s13 : (13 : Int) - ((i % 13 : Nat) : Int) = ((13 - i % 13 : Nat) : Int) := by omega
+  have s11 : (11 : Int) - ((i % 11 : Nat) : Int) = ((11 - i % 11 : Nat) : Int) := by omega
+  unfold Gen.Translated.protStep protByte
+  simp only [e13, e11, Int.toNat_natCast, s13, s11]
+  -- the literal key lists of the translated code are matched by unification, their entries are
+  -- compared with the generated byte tables by evaluation (13 resp. 11 cases)
+  refine PyIntLemmas.cipher_step_tab _ _ tableKeys.k1 tableKeys.k2 _ _ _ _ _ (by omega) ?_ ?_ ?_ ?_
+  · generalize i % 13 = j at h13; revert j; decide
+  · generalize i % 13 = j at h13; revert j; decide
+  · generalize i % 11 = j at h11; revert j; decide
+  · generalize i % 11 = j at h11; revert j; decide
+
+/-- one decoded byte: translated `unprotect` loop body = `unprotByte` -/
+theorem translated_unprotStep_eq (i b : Nat) :
+    Gen.Translated.unprotStep (b : Int) (i : Int) = ((unprotByte tableKeys i b : Nat) : Int) := by
+  have h13 : i % 13 < 13 := Nat.mod_lt _ (by decide)
+  have h11 : i % 11 < 11 := Nat.mod_lt _ (by decide)
+  have e13 : Int.fmod (i : Int) 13 = ((i % 13 : Nat) : Int) := PyIntLemmas.fmod_natCast i 13
+  have e11 : Int.fmod (i : Int) 11 = ((i % 11 : Nat) : Int) := PyIntLemmas.fmod_natCast i 11
+  have s13 : (13 : Int) - ((i % 13 : Nat) : Int) = ((13 - i % 13 : Nat) : Int) := by omega
+  have s11 : (11 : Int) - ((i % 11 : Nat) : Int) = ((11 - i % 11 : Nat) : Int) := by omega
+  unfold Gen.Translated.unprotStep unprotByte
+  simp only [e13, e11, Int.toNat_natCast, s13, s11]
+  refine PyIntLemmas.cipher_step_tab _ _ tableKeys.k1 tableKeys.k2 _ _ _ _ _ (by omega) ?_ ?_ ?_ ?_
+  · generalize i % 13 = j at h13; revert j; decide
+  · generalize i % 13 = j at h13; revert j; decide
+  · generalize i % 11 = j at h11; revert j; decide
+  · generalize i % 11 = j at h11; revert j; decide
+
+/-- the stream position: translated `index = (index+1) % (13*11)` of both loops = `nextIndex` -/
+theorem translated_nextIndex_eq (i : Nat) :
+    Gen.Translated.protNextIndex (i : Int) = ((nextIndex i : Nat) : Int) ∧
+    Gen.Translated.unprotNextIndex (i : Int) = ((nextIndex i : Nat) : Int) := by
+  unfold Gen.Translated.protNextIndex Gen.Translated.unprotNextIndex nextIndex
+  constructor <;> exact PyIntLemmas.fmod_natCast (i + 1) (13 * 11)
+
+/-- hence the translated loop bodies are mutually inverse on bytes at every position -/
+theorem translated_cipher_roundtrip (i b : Nat) (hb : b < 256) :
+    Gen.Translated.unprotStep (Gen.Translated.protStep (b : Int) (i : Int)) (i : Int) = (b : Int) := by
+  rw [translated_protStep_eq, translated_unprotStep_eq, unprot_prot_byte tableKeys i b hb]
 
 end PcbV.C15
